@@ -16,8 +16,9 @@ pub struct VT(pub u8);
 impl VT {
     pub fn text(&self) -> &'static str {
         let i = (self.0 % NCODES) as usize;
-        // POOL is ASCII: every index is a char boundary
-        unsafe { POOL.get_unchecked(i..i + 1) }
+        // POOL is ASCII: every index is a char boundary; the length is the literal 1 (keeps MownStr's
+        // owned/borrowed flag a constant for the solver)
+        unsafe { std::str::from_utf8_unchecked(std::slice::from_raw_parts(POOL.as_ptr().add(i), 1)) }
     }
     pub fn is_bn(&self) -> bool {
         self.0 % NCODES >= 6
@@ -40,6 +41,9 @@ impl Term for VT {
     }
     // consistent override: two VT-like terms are equal iff same kind and same 1-byte text
     fn eq<T: Term>(&self, other: T) -> bool {
+        if let Some(o) = as_vt(&other) {
+            return self.0 % NCODES == o.0 % NCODES;
+        }
         if self.kind() != other.kind() {
             return false;
         }
@@ -58,8 +62,22 @@ impl Term for VT {
     }
 }
 
+/// Fast path for the solver: VT is the only 1-byte, align-1 `Term` type that flows through these harnesses, so a
+/// term of that layout IS a VT and can be read directly instead of through the string accessors.
+#[inline]
+pub fn as_vt<T: Term>(t: &T) -> Option<VT> {
+    if std::mem::size_of::<T>() == 1 && std::mem::align_of::<T>() == 1 {
+        Some(unsafe { std::mem::transmute_copy::<T, VT>(t) })
+    } else {
+        None
+    }
+}
+
 /// decode any 1-byte VT-like term back to its code
 pub fn code_of<T: Term>(t: T) -> Option<u8> {
+    if let Some(o) = as_vt(&t) {
+        return Some(o.0 % NCODES);
+    }
     let b = match t.kind() {
         TermKind::Iri => t.iri().map(|x| x.as_str().as_bytes()[0]),
         TermKind::BlankNode => t.bnode_id().map(|x| x.as_str().as_bytes()[0]),
